@@ -566,6 +566,13 @@ func c10File(c c10Case, style int, meaning, desc, body string) (string, int) {
 		other3 := c10MsgSrc("verb", "third", "{plural $q}{case 1}one{default}{$q} many{/plural}")
 		return "{namespace c10.ns}\n\n/**\n * @param? q\n * @param? r\n * @param? x_1\n */\n{template .before}\n" + other1 + "\n{/template}\n" + helper + "\n" + doc +
 			"{template .t}\n" + other2 + "\n" + msg + "\n" + c10MsgSrc("", desc, "Help") + "\n{/template}\n\n/** @param? q */\n{template .after}\n" + other3 + "\n{/template}\n", 2
+	case 3: // the message inside a {param} block of a call
+		return "{namespace c10.ns}\n\n" + doc + "{template .t}\n{call .helper}{param p}" + msg + "{/param}{/call}\n{/template}\n" + helper, 0
+	case 4: // inside a {let} block, itself inside if / foreach / switch
+		return "{namespace c10.ns}\n\n" + doc + "{template .t}\n{if true}{foreach $i in [1]}{switch $i}{case 1}{let $l}" + msg + "{/let}{$l}{default}d{/switch}{/foreach}{/if}\n{/template}\n" + helper, 0
+	case 5: // inside {log}, {ifempty}, {elseif} and a param block nested in a param block
+		return "{namespace c10.ns}\n\n" + doc + "{template .t}\n{if false}n{elseif true}{foreach $i in []}x{ifempty}{call .helper}{param p}{call .helper}{param p}{log}" + c10MsgSrc("", "logged", "Logged") + "{/log}" + msg +
+			"{/param}{/call}{/param}{/call}{/foreach}{/if}\n{/template}\n" + helper, 1
 	}
 	return "{namespace c10.ns}\n\n" + doc + "{template .t}\n" + msg + "\n{/template}\n" + helper, 0
 }
@@ -660,7 +667,7 @@ func runC10(e *env) {
 
 func c10Bytes(e *env) {
 	var strs []string
-	for n := 0; n <= 40; n++ {
+	for n := 0; n <= 75; n++ {
 		for k := 0; k < 4; k++ {
 			bs := make([]byte, n)
 			for i := range bs {
@@ -699,6 +706,10 @@ func c10Bytes(e *env) {
 	for i, s := range strs {
 		e.res.Count("fp:"+s, len(s) > 0, "bytes:fingerprint")
 		fp := soymsg.VerifFingerprint([]byte(s))
+		if ref := c10RefFingerprint([]byte(s)); ref != fp {
+			e.res.Fail(hx.Violation{Kind: "oracle", What: "the fingerprint is not the official Soy algorithm's (independent transcription of Jenkins' lookup2 as in SoyMsgIdComputer), so ids no longer match extracted catalogues",
+				Case: map[string]string{"kind": "fingerprint", "input": hx.Q(s), "length": fmt.Sprint(len(s))}, Expected: strconv.FormatUint(ref, 10), Observed: strconv.FormatUint(fp, 10)}, "")
+		}
 		if got := resp[k][0]; got != "#"+strconv.FormatUint(fp, 10) {
 			e.res.Fail(hx.Violation{Kind: "mismatch", What: "model fingerprint differs from soymsg.fingerprint", Case: map[string]string{"kind": "fingerprint", "input": hx.Q(s)},
 				Expected: got, Observed: strconv.FormatUint(fp, 10)}, "")
@@ -883,6 +894,9 @@ func c10Messages(e *env) {
 			{"the description changed", 0, otherDesc, c.Meaning, c.Body, false},
 			{"the code around the message changed", 1, c.Desc, c.Meaning, c.Body, false},
 			{"other messages were added to the file", 2, c.Desc, c.Meaning, c.Body, false},
+			{"the message was moved into a {param} block of a call", 3, c.Desc, c.Meaning, c.Body, false},
+			{"the message was moved into a {let} block nested in if/foreach/switch", 4, c.Desc, c.Meaning, c.Body, false},
+			{"the message was moved into nested param blocks after a {log} with another message", 5, c.Desc, c.Meaning, c.Body, false},
 			{"the text changed", 0, c.Desc, c.Meaning, c.Mutated, true},
 			{"the meaning changed", 0, c.Desc, c.Meaning + "q", c.Body, true},
 		}
